@@ -170,7 +170,8 @@ def splice(scratch_repo, groups):
     for g in groups:
         for f, fn, attr_lines in g.attrs:
             attr_files.setdefault(f, []).append((fn, attr_lines))
-    for f in set(list(by_file) + list(attr_files)):
+    strip_files = [f for g in groups for f in g.strip_tracing]
+    for f in set(list(by_file) + list(attr_files) + strip_files):
         path = os.path.join(scratch_repo, f)
         if not os.path.exists(path):
             raise Undecided("lost anchor: file %s" % f)
